@@ -306,6 +306,11 @@ def grammar_cases(tier):
         for sB in (in2 + "_0", 0):
             for bA in ("a1", "a2"):
                 out.append(dict(kind="grammar", sizes=[1, 2], k=1, sA=0, mA=None, bA=bA, sB=sB, bB="b14", ret=["A", "B"], in2=in2))
+                if in2 in ("Ha", "X"):
+                    # the last block is flagged as linear-operator block: its elements (inputs included) are read
+                    # from the second dictionary returned by series_computation
+                    out.append(dict(kind="grammar", sizes=[1, 2], k=1, sA=0, mA=None, bA=bA, sB=sB, bB="b14", ret=["A", "B"], in2=in2,
+                                    linop=True))
     # the input series itself is a factor of a declared product / used directly, and is given as data only
     for bA, bB in (("a1", "b9"), ("a11", "b1"), ("a11", "b9"), ("a2", "b8"), ("a7", "b9")):
         for sA in (0, 1):
@@ -428,16 +433,22 @@ def run_grammar(case):
             inputs_ = {"H": H}
             if in2:
                 inputs_[in2] = BlockSeries(eval=lambda *idx: Hv2(idx), shape=(nb, nb), n_infinite=k, name=in2)
+            lib_scope = dict(scope)
+            if case.get("linop"):
+                ulo = np.zeros((nb, nb), dtype=bool)
+                ulo[-1, -1] = True
+                lib_scope["use_linear_operator"] = ulo
             try:
-                series, _ = series_computation(inputs_, algorithm=func, scope=dict(scope))
+                series, linops = series_computation(inputs_, algorithm=func, scope=lib_scope)
             except Exception as e:  # noqa: BLE001
                 V.append(f"series_computation raises {type(e).__name__}: {str(e)[:100]}")
                 break
             for el in sched:
                 name, idx = el
                 r = refval[el]
+                use_lo = case.get("linop") and idx[0] == nb - 1 and idx[1] == nb - 1
                 try:
-                    lv = series[name][idx]
+                    lv = (linops if use_lo else series)[name][idx]
                 except RuntimeError as e:
                     if r[0] == "nwf":
                         continue
